@@ -73,6 +73,36 @@ CLAIMED = {
          'deeper nesting outside',
     technique='bounded symbolic exploration of instantiation/substitution histories vs independent substitution on snapshots',
     design='4/C07'),
+ 'C08': dict(
+    text='Lemma: _get_type_arg_variance with declared variance, presence/content of the choice map (solver booleans), both '
+         'cfg.dis switches (solver booleans written into the real singleton), in_bound and the RNG draw symbolic: the result is '
+         'invariant unless map, switches, declared variance and in_bound all allow the projection (z3 formula per path). Bounded: '
+         '_compute_type_variable_assignments / instantiate_type_constructor / instantiate_parameterized_function under a symbolic '
+         'RNG (every outcome of every draw) on 6 (thorough 10) parameter-list shapes (bounded, chained T3:T2:T1, T2:G<T1>, variant, '
+         'Function-named), 1-3 pools, 4 pre-assignments, 3 variance-choice maps, both switches; one argument per parameter, within '
+         'substituted bound (declarative relation), no primitive/bare constructor, requested assignments kept, projection only where allowed.',
+    note='trusted: symbolic RNG contract (vlib/symrandom.py), declarative relation; >3 type parameters, larger pools, whole-generator call sites outside',
+    technique='symbolic lemma (z3 booleans) + bounded symbolic execution of the instantiation helpers under a symbolic RNG',
+    design='4/C08'),
+ 'C09': dict(
+    text='Bounded symbolic execution of find_subtypes and find_irrelevant_type (with the find_supertypes / _construct_related_types / '
+         'to_type / get_irrelevant_parameterized_type code they call) under a symbolic RNG on every class table of the bound '
+         '(2 classes quick, <=3 thorough; G, H in 5 supertype shapes, optional D<Q> : G<..>), every ground query of depth 1 '
+         '(quick: 9 query shapes for the irrelevant search), include_self/concrete_only symbolic; every result judged by the '
+         'declarative relation; usable-type and self-iff-asked obligations.',
+    note='trusted: symbolic RNG contract, declarative relation; a recorded finding covers queries/results outside the exactness class '
+         '(star, top type, opposing projections) where the search inherits the incompleteness of is_subtype',
+    technique='bounded symbolic execution of the search helpers under a symbolic RNG, judged by a declarative reference relation',
+    design='4/C09'),
+ 'C10': dict(
+    text='Lemmas with judgement atoms on the real unify_types (repeated variable => equal components, bounded variable => component '
+         'below the bound, projection kinds must agree) for opaque components of any depth; bounded: 18 patterns (<=3 variables, '
+         'bounded, repeated, projected, nested) x all ground targets of depth 1 (thorough 2), both matching modes; for every non-empty '
+         'answer the real substitute_type applied to the pattern must give the target (or a supertype) up to open variables whose '
+         'positions satisfy their bounds, and every assigned type satisfies its variable bound.',
+    note='trusted: reference substitution/relation in vlib/ref.py, leaf/atom stubs',
+    technique='rule lemmas with z3 atoms + bounded symbolic exploration with substitute-back on structural snapshots',
+    design='4/C10'),
 }
 
 NOT_YET = 'check not built yet in this round (planned per DESIGN.md build order); not claimed'
